@@ -96,7 +96,7 @@ fn arrange(src: &mut Src, helpers: Vec<String>, target: String) -> Vec<String> {
 
 fn gen_pair(src: &mut Src) -> Pair {
     let header = ["AUTOMATIC TAGS", "EXPLICIT TAGS", "IMPLICIT TAGS", "AUTOMATIC TAGS EXTENSIBILITY IMPLIED"][src.pick(4)].to_string();
-    match src.pick(6) {
+    match src.pick(7) {
         // (a) value reference / named number in a constraint, with reference chains
         0 => {
             let n = [1i128, 5, 255, 256, 65535, 70000][src.pick(6)];
@@ -287,6 +287,26 @@ fn gen_pair(src: &mut Src) -> Pair {
                 wrong: vec![("F-select".to_string(), vec![ch_def, whole])],
                 header,
                 nontrivial: k > 0,
+            }
+        }
+        // (f) a DEFAULT whose governing type is a reference to a type constrained through a value
+        // reference: the literal's Rust type must follow the resolved constraint wherever the
+        // names sort
+        5 => {
+            let lim = [7i128, 255, 70000][src.pick(3)];
+            let vname = hname(src, "max-val", false);
+            let tname = hname(src, "Bounded", true);
+            let dv = src.range(0, lim.min(7));
+            let ty_sug = format!("{tname} ::= INTEGER (0..{vname})");
+            let ty_exp = format!("{tname} ::= INTEGER (0..{lim})");
+            let target = format!("{TARGET} ::= SEQUENCE {{ mm {tname} DEFAULT {dv}, nn BOOLEAN }}");
+            Pair {
+                kind: "default-on-reference-constrained-by-reference".into(),
+                sugared: arrange(src, vec![ty_sug, format!("{vname} INTEGER ::= {lim}")], target.clone()),
+                expanded: vec![ty_exp, target],
+                wrong: vec![],
+                header,
+                nontrivial: true,
             }
         }
         // (e) fixed-type class field; the fixed type may carry a constraint, written with a literal
